@@ -482,3 +482,65 @@ Lemma wrap_U64_id z : 0 <= z < 18446744073709551616 -> wrap U64 z = z.
 Proof. intro H. unfold wrap. cbn [ity_bits ity_signed andb]. apply Z.mod_small. exact H. Qed.
 Lemma chk_U64 z : 0 <= z < 18446744073709551616 -> chk U64 z = Ok z.
 Proof. intro H. unfold chk. cbn [ity_signed]. rewrite wrap_U64_id by exact H. reflexivity. Qed.
+
+(* ---- strlen / strchr on a C string in memory (the builtins BStrlen, BStrchr of CLite.v) *)
+Lemma skipn_cstr_block (s : bytes) o : (o <= length s)%nat -> skipn o (cstr_block (zb s)) = cstr_block (zb (skipn o s)).
+Proof. intro H. unfold cstr_block, zb. rewrite skipn_app, !map_length, !skipn_map. replace (o - length s)%nat with 0%nat by lia. reflexivity. Qed.
+Lemma blk_from_str m b s (o : nat) : str_at m b s -> (o <= length s)%nat ->
+  blk_from m b (Z.of_nat o) = Ok (cstr_block (zb (skipn o s))).
+Proof.
+  intros H Ho. unfold blk_from. rewrite H.
+  assert (L : length (cstr_block (zb s)) = S (length s)) by (unfold cstr_block, zb; rewrite app_length, !map_length; cbn; lia).
+  rewrite L. destruct (Z.ltb_spec (Z.of_nat o) 0); [lia|]. destruct (Z.ltb_spec (Z.of_nat (S (length s))) (Z.of_nat o)); [lia|].
+  cbn [orb]. rewrite Nat2Z.id, skipn_cstr_block by exact Ho. reflexivity.
+Qed.
+Lemma scan0_cstr (t : bytes) n : nonul t -> scan0 (cstr_block (zb t)) n = Ok (n + length t)%nat.
+Proof.
+  revert n; induction t as [|x t IH]; intros n H; [cbn; f_equal; lia|].
+  inversion H as [|? ? Hx Ht]; subst. unfold cstr_block, zb in *. cbn [map app scan0].
+  destruct x as [|p]; [destruct Hx; lia|]. cbn [Z.of_N]. rewrite IH by exact Ht. f_equal. cbn [length]. lia.
+Qed.
+Lemma builtin_strlen m b s (o : nat) : str_at m b s -> nonul s -> (o <= length s)%nat ->
+  do_builtin_m BStrlen [VPtr b (Z.of_nat o)] m = Ok (VInt (Z.of_nat (length s - o)), m).
+Proof.
+  intros H Hn Ho. cbn [do_builtin_m do_builtin bind]. rewrite (blk_from_str m b s o H Ho). cbn [bind].
+  rewrite scan0_cstr by (apply Forall_skipn'; exact Hn). cbn [bind]. rewrite skipn_length. reflexivity.
+Qed.
+(* index of the first byte c *)
+Fixpoint find_byte (c : N) (s : bytes) : option nat :=
+  match s with
+  | [] => None
+  | x :: r => if (x =? c)%N then Some O else match find_byte c r with Some n => Some (S n) | None => None end
+  end.
+Lemma wrap_I8_inj x c : (x < 256)%N -> (c < 256)%N -> (wrap I8 (Z.of_N x) =? wrap I8 (Z.of_N c)) = (x =? c)%N.
+Proof.
+  intros Hx Hc. unfold wrap. cbn [ity_bits ity_signed andb]. change (2 ^ 8) with 256. change (2 ^ (8 - 1)) with 128.
+  rewrite !Z.mod_small by lia.
+  destruct (Z.leb_spec 128 (Z.of_N x)); destruct (Z.leb_spec 128 (Z.of_N c)); destruct (N.eqb_spec x c);
+    match goal with |- (?a =? ?b) = _ => destruct (Z.eqb_spec a b) end; try reflexivity; try lia.
+Qed.
+Lemma scanc_cstr (t : bytes) c n : nonul t -> (c < 256)%N -> c <> 0%N ->
+  scanc (cstr_block (zb t)) (wrap I8 (Z.of_N c)) n = Ok (match find_byte c t with Some k => Some (n + k)%nat | None => None end).
+Proof.
+  intros Ht Hc Hc0. revert n; induction t as [|x t IH]; intro n.
+  - unfold cstr_block, zb. cbn [map app scanc find_byte]. change (wrap I8 0) with (wrap I8 (Z.of_N 0)).
+    rewrite wrap_I8_inj by lia. destruct (N.eqb_spec 0 c); [congruence|]. reflexivity.
+  - inversion Ht as [|? ? Hx Ht']; subst. unfold cstr_block, zb in *. cbn [map app scanc find_byte].
+    destruct Hx as [Hx0 Hx]. rewrite wrap_I8_inj by lia. destruct (N.eqb_spec x c); [do 2 f_equal; lia|].
+    destruct (Z.eqb_spec (Z.of_N x) 0); [lia|]. rewrite (IH Ht'). destruct (find_byte c t); [do 2 f_equal; lia|reflexivity].
+Qed.
+Lemma builtin_strchr m b s (o : nat) c : str_at m b s -> nonul s -> (o <= length s)%nat -> (c < 256)%N -> c <> 0%N ->
+  do_builtin_m BStrchr [VPtr b (Z.of_nat o); VInt (Z.of_N c)] m
+  = Ok (match find_byte c (skipn o s) with Some k => VPtr b (Z.of_nat o + Z.of_nat k) | None => VInt 0 end, m).
+Proof.
+  intros H Hn Ho Hc Hc0. cbn [do_builtin_m do_builtin bind]. rewrite (blk_from_str m b s o H Ho). cbn [bind].
+  rewrite scanc_cstr by (try assumption; apply Forall_skipn'; exact Hn). cbn [bind].
+  destruct (find_byte c (skipn o s)); reflexivity.
+Qed.
+Lemma find_byte_lt c s k : find_byte c s = Some k -> (k < length s)%nat /\ nthb s k = c.
+Proof.
+  revert k; induction s as [|x s IH]; intros k H; [discriminate|]. cbn [find_byte] in H.
+  destruct (N.eqb_spec x c).
+  - injection H as <-. cbn. split; [lia|assumption].
+  - destruct (find_byte c s) as [j|]; [|discriminate]. injection H as <-. destruct (IH j eq_refl). cbn [length]. split; [lia|assumption].
+Qed.
